@@ -858,8 +858,77 @@ func ruleProvValidity(c *Ctx, r *Rep) {
 	}
 }
 
+// textPreserving: library functions that select or decode a part of a string without rewriting the rest of it.
+var textPreserving = map[string]bool{
+	"strings.TrimSpace": true, "strings.Split": true, "strings.SplitN": true, "strings.Cut": true, "strings.TrimPrefix": true,
+	"strings.TrimSuffix": true, "strings.Trim": true, "strings.TrimLeft": true, "strings.TrimRight": true, "strings.Index": true,
+	"strings.ReplaceAll": true, "encoding/hex.DecodeString": true, "encoding/asn1.Unmarshal": true, "strings.Count": true,
+	"(*regexp.Regexp).MatchString": true, "(*strings.Builder).String": true, "(*strings.Builder).WriteString": true,
+	"(*strings.Builder).WriteByte": true, "(*strings.Builder).WriteRune": true,
+}
+
+var reCallName = regexp.MustCompile(`((?:\(\*?[A-Za-z0-9_/.]+\)\.)?[A-Za-z0-9_/]+(?:\.[A-Za-z0-9_]+)+)\(`)
+
+// rewritingCalls lists the functions named in an origin that are not text-preserving; module functions are looked into.
+func rewritingCalls(c *Ctx, pv *prov, origin string, depth int, seen map[string]bool) []string {
+	var out []string
+	for _, m := range reCallName.FindAllStringSubmatch(origin, -1) {
+		name := m[1]
+		if textPreserving[name] || seen[name] {
+			continue
+		}
+		seen[name] = true
+		// a module function: what does it return?
+		var mf *ssa.Function
+		for _, f := range c.Funcs {
+			if shortName(c.Mod+"/"+strings.TrimPrefix(c.FuncKey(f), "")) == name || c.FuncKey(f) == name || strings.HasSuffix(name, "."+f.Name()) && strings.HasPrefix(c.FuncKey(f), name[:strings.Index(name, ".")+1]) {
+				mf = f
+			}
+		}
+		if mf != nil && depth < 3 {
+			for _, ret := range returnsOf(mf) {
+				if returnsNonNilError(ret) {
+					continue
+				}
+				for _, o := range pv.Origins(retResults(ret)[0]) {
+					out = append(out, rewritingCalls(c, pv, o, depth+1, seen)...)
+				}
+			}
+			continue
+		}
+		out = append(out, name)
+	}
+	return out
+}
+
 func ruleProvSubject(c *Ctx, r *Rep) {
 	pv := c.newProv()
+	// the text of a subject attribute value is a part of what was written: nothing on the way from the subject string to
+	// the attribute value rewrites it (case, inner white space, normalisation)
+	for _, fn := range c.Funcs {
+		nVal := 0
+		for _, b := range fn.Blocks {
+			for _, ins := range b.Instrs {
+				st, ok := ins.(*ssa.Store)
+				if !ok {
+					continue
+				}
+				fa, ok := st.Addr.(*ssa.FieldAddr)
+				if !ok || fieldOfAddr(fa).Name() != "Value" || !typeIs(fa.X.Type().Underlying().(*types.Pointer).Elem(), "crypto/x509/pkix", "AttributeTypeAndValue") {
+					continue
+				}
+				nVal++
+				var bad []string
+				for _, o := range pv.Origins(st.Val) {
+					if !strings.Contains(o, "P(") {
+						continue // constants (default subject)
+					}
+					bad = append(bad, rewritingCalls(c, pv, o, 0, map[string]bool{})...)
+				}
+				r.Check(len(bad) == 0, sprintf("subject-value-text|%s#%d", c.FuncKey(fn), nVal), c.Pos(st.Pos()), "the value is a part of the subject string as written (split, trimmed at the ends, or hex-decoded): never rewritten", strings.Join(uniq(bad), ", "))
+			}
+		}
+	}
 	body := c.Func("generator", "BuildCertBody")
 	if body == nil {
 		r.Undecided("anchor:BuildCertBody", "", "not found")
@@ -1272,6 +1341,8 @@ func ruleProvKey(c *Ctx, r *Rep) {
 		fk := c.FuncKey(fn)
 		for _, ci := range cis {
 			cfgO := pv.Origins(ci.Common().Args[0])
+			okCfg := len(cfgO) == 1 && strings.HasPrefix(cfgO[0], "I:db.Database.GetConfig(") && strings.HasSuffix(cfgO[0], ")#0")
+			r.Check(okCfg, "driver-config-unaltered|"+fk, c.Pos(ci.Pos()), "the body is built from the stored configuration itself (key algorithm, signature algorithm and everything else as configured)", strings.Join(head(cfgO, 3), " , "))
 			if len(cfgO) != 1 {
 				continue
 			}
@@ -1606,6 +1677,49 @@ func ruleFillBytes(c *Ctx, r *Rep) {
 				}
 			}
 			r.Check(okCmp, "range-test|"+fk, c.Pos(ci.Pos()), "rejected iff k.Cmp(N) >= 0", sprintf("%v", okCmp))
+			// what else the reader rejects: only what the reference reader (crypto/x509) rejects - a decoding error, a
+			// wrong version, an unknown curve, a scalar out of range, non-zero padding. A key gopki can write (or any key
+			// another tool wrote validly) must not be refused: a refused key counts as missing and is replaced.
+			var other []string
+			nRej := 0
+			for _, ret := range returnsOf(fn) {
+				if !returnsNonNilError(ret) {
+					continue
+				}
+				gs := guardsOf(ret.Block())
+				if len(gs) == 0 {
+					continue
+				}
+				nRej++
+				cond := gs[0].Cond
+				for {
+					if u, ok := cond.(*ssa.UnOp); ok && u.Op == token.NOT {
+						cond = u.X
+						continue
+					}
+					break
+				}
+				cause := ""
+				if bin, ok := cond.(*ssa.BinOp); ok {
+					if k, isK := bin.Y.(*ssa.Const); isK && k.Value == nil && isErrorType(bin.X.Type()) {
+						cause = "an error handed on"
+					} else if f := fieldLoad(bin.X); f != nil && f.Name() == "Version" {
+						cause = "version"
+					} else if cc, ok := bin.X.(*ssa.Call); ok && calleeFullName(cc) == "(*math/big.Int).Cmp" {
+						cause = "scalar range"
+					} else if u, ok := bin.X.(*ssa.UnOp); ok && u.Op == token.MUL {
+						if ia, ok := u.X.(*ssa.IndexAddr); ok {
+							if k, isK := ia.Index.(*ssa.Const); isK && k.Int64() == 0 {
+								cause = "padding byte"
+							}
+						}
+					}
+				}
+				if cause == "" {
+					other = append(other, c.Pos(ret.Pos())+": "+cond.String())
+				}
+			}
+			r.Check(len(other) == 0 && nRej >= 3, "reader-rejections|"+fk, c.FnPos(fn), "the EC key reader refuses only: undecodable input, wrong version, unknown curve, scalar out of range, non-zero padding", strings.Join(other, "; "))
 		}
 	}
 	if !found {
@@ -1637,6 +1751,27 @@ func ruleRawDN(c *Ctx, r *Rep) {
 	if subj == nil || dn == nil {
 		r.Undecided("anchor:fields", "", "Subject / issuer name field not found")
 		return
+	}
+	// as long as names are carried decoded, at least the names gopki writes itself must survive decoding and
+	// re-encoding unchanged: attribute values are Go strings (encoding/asn1 picks PrintableString or UTF8String from the
+	// content, again after the round trip) or byte strings - never a value with a string type of its own choosing
+	for _, fn := range c.Funcs {
+		for _, b := range fn.Blocks {
+			for _, ins := range b.Instrs {
+				st, ok := ins.(*ssa.Store)
+				if !ok {
+					continue
+				}
+				fa, ok := st.Addr.(*ssa.FieldAddr)
+				if !ok || fieldOfAddr(fa).Name() != "Value" || !typeIs(fa.X.Type().Underlying().(*types.Pointer).Elem(), "crypto/x509/pkix", "AttributeTypeAndValue") {
+					continue
+				}
+				for _, t := range dynamicKinds(c, st.Val, 0) {
+					okKind := t == "string" || t == "[]byte" || t == "[]uint8" || t == "nil"
+					r.Check(okKind, "attribute-value-kind|"+c.FuncKey(fn)+"|"+t, c.Pos(st.Pos()), "subject attribute values are strings or byte strings (their encoding is reproduced when an issuer's name is decoded and re-encoded)", t)
+				}
+			}
+		}
 	}
 	key := "cert.TbsCertificate." + subj.Name() + ":" + typeShort(c, subj.Type()) + "→cert.IssuerContext." + dn.Name()
 	decoded := typeIs(subj.Type(), "crypto/x509/pkix", "RDNSequence")
@@ -1765,4 +1900,67 @@ func isNamedStruct(t types.Type) bool {
 	}
 	_, ok = n.Underlying().(*types.Struct)
 	return ok
+}
+
+// dynamicKinds: the concrete types an interface-typed value can hold: through phis, conversions and the results of
+// module functions.
+func dynamicKinds(c *Ctx, v ssa.Value, depth int) []string {
+	if depth > 6 {
+		return []string{typeShort(c, v.Type())}
+	}
+	var out []string
+	for _, pe := range phiEdges(v, nil) {
+		x := pe.Val
+		switch y := x.(type) {
+		case *ssa.MakeInterface:
+			out = append(out, dynamicKinds(c, y.X, depth+1)...)
+			continue
+		case *ssa.ChangeInterface:
+			out = append(out, dynamicKinds(c, y.X, depth+1)...)
+			continue
+		case *ssa.Const:
+			if y.Value == nil {
+				out = append(out, "nil")
+				continue
+			}
+		case *ssa.Extract:
+			if call, ok := y.Tuple.(*ssa.Call); ok {
+				if g := call.Call.StaticCallee(); g != nil && c.InModule(g) && g.Blocks != nil {
+					if _, isIface := y.Type().Underlying().(*types.Interface); isIface {
+						for _, ret := range returnsOf(g) {
+							rr := retResults(ret)
+							if returnsNonNilError(ret) || y.Index >= len(rr) {
+								continue
+							}
+							out = append(out, dynamicKinds(c, rr[y.Index], depth+1)...)
+						}
+						continue
+					}
+				}
+			}
+		case *ssa.Call:
+			if g := y.Call.StaticCallee(); g != nil && c.InModule(g) && g.Blocks != nil {
+				if _, isIface := y.Type().Underlying().(*types.Interface); isIface {
+					for _, ret := range returnsOf(g) {
+						out = append(out, dynamicKinds(c, retResults(ret)[0], depth+1)...)
+					}
+					continue
+				}
+			}
+		case *ssa.UnOp:
+			// a local `var value any` assigned on several paths
+			if al, ok := y.X.(*ssa.Alloc); ok && y.Op == token.MUL && al.Referrers() != nil {
+				if _, isIface := y.Type().Underlying().(*types.Interface); isIface {
+					for _, u := range *al.Referrers() {
+						if st, ok := u.(*ssa.Store); ok && st.Addr == ssa.Value(al) {
+							out = append(out, dynamicKinds(c, st.Val, depth+1)...)
+						}
+					}
+					continue
+				}
+			}
+		}
+		out = append(out, typeShort(c, x.Type()))
+	}
+	return uniq(out)
 }
